@@ -194,6 +194,32 @@ fn micro_edit(rng: &mut Rng, cfg: &TabCfg, near: u32, t: &mut PType) {
         }
         _ => {}
     }
+    // a variant of one string that differs only in white space
+    if rng.permille(120) {
+        let spaced = |x: &mut String, rng: &mut Rng| {
+            if x.contains(' ') && rng.permille(500) {
+                *x = x.replacen(' ', "", 1);
+            } else {
+                let at = if x.is_empty() { 0 } else { rng.usize_below(x.chars().count() + 1) };
+                let byte = x.char_indices().nth(at).map(|c| c.0).unwrap_or(x.len());
+                x.insert(byte, ' ');
+            }
+        };
+        let mut targets: Vec<&mut String> = Vec::new();
+        for f in fields.iter_mut() {
+            if let Some(n) = f.name.as_mut() {
+                targets.push(n);
+            }
+            if let Some(n) = f.type_name.as_mut() {
+                targets.push(n);
+            }
+        }
+        if !targets.is_empty() {
+            let k = rng.usize_below(targets.len());
+            spaced(targets[k], rng);
+            return;
+        }
+    }
     let choice = rng.below(16);
     if !fields.is_empty() && choice < 6 {
         let k = rng.usize_below(fields.len());
